@@ -176,6 +176,9 @@ def examine(t, s, v, tier, rng, want):
         # generated value that the result itself rejects is C01's business)
         if plain and "C04" in want and not carries(v, g):
             out.append(("C04", f"generates-value-not-carrying-v|{tcls}|{tname(v)}", f"g={src(g)}"))
+        if "C12" in want and cg is not True:
+            # usable: whatever the result generates, the result itself accepts
+            out.append(("C12", f"result-rejects-its-own-generated-value|{tcls}|{tname(v)}", f"g={src(g)} {cg}"))
         if plain and "C04" in want and cg is not True:
             # "the resulting schema is usable": it accepts what it generates itself
             out.append(("C04", f"result-rejects-its-own-generated-value|{tcls}|{tname(v)}", f"g={src(g)} {cg}"))
